@@ -550,30 +550,49 @@ def resolve(doc_names, host_tid, text, labels):
         return x[1:-1].replace("''", "'") if x and x.startswith("'") else x
     a = unq(m.group(2))
     b = unq(m.group(4)) if m.group(4) else a
+    # the library writes the '$' of an absolute label inside the quotes ('$a+b'); both placements are accepted
+    a_abs = m.group(1) == "$"
+    b_abs = ((m.group(3) or "") == "$") if m.group(4) else a_abs
+    if m.group(2).startswith("'") and a.startswith("$"):
+        a, a_abs = a[1:], True
+    if m.group(4) and m.group(4).startswith("'") and b.startswith("$"):
+        b, b_abs = b[1:], True
+    if not m.group(4):
+        b, b_abs = a, a_abs
 
-    def find(name):
+    def hits(name):
+        """All header labels equal to `name`, with the rank of the scope they were found in."""
         if scope == "table":
             pools = [cands]
         else:
             pools = [[host_tid], [t for s, ts in doc_names if s == host_sheet for _, t in ts], [t for s, ts in doc_names for _, t in ts]]
-        for pool in pools:
-            hits = [(tid, ax, i) for tid in pool for ax, dct in enumerate(labels[tid]) for i, nm in dct.items() if nm == name]
-            if len(hits) == 1:
-                return hits[0]
-            if len(hits) > 1:
-                return ("ambiguous", hits)
-        return None
-    ha, hb = find(a), find(b)
+        out = []
+        seen = set()
+        for rank, pool in enumerate(pools):
+            for tid in pool:
+                for ax, dct in enumerate(labels.get(tid, ({}, {}))):
+                    # a label that occurs more than once on its own table axis names nothing (it cannot be referenced at all)
+                    if list(dct.values()).count(name) != 1:
+                        continue
+                    for i, nm in dct.items():
+                        if nm == name and (tid, ax, i) not in seen:
+                            seen.add((tid, ax, i))
+                            out.append((rank, tid, ax, i))
+        return out
+    ha, hb = hits(a), hits(b)
     if not ha or not hb:
         return ("label-unresolved", a, b)
-    if ha[0] == "ambiguous" or hb[0] == "ambiguous":
-        amb = ha if ha[0] == "ambiguous" else hb
-        axes = {h[1] for h in amb[1]}
-        return ("label-ambiguous", a, b, "cross-axis" if len(axes) > 1 else "same-axis")
-    if ha[0] != hb[0] or ha[1] != hb[1]:
+    # a span is resolved jointly: both ends lie on the same axis of the same table
+    pairs = [(max(x[0], y[0]), x[1], x[2], x[3], y[3]) for x in ha for y in hb if x[1] == y[1] and x[2] == y[2]]
+    if not pairs:
         return ("label-mixed", a, b)
-    tid, ax = ha[0], ha[1]
-    fl = (m.group(1) == "$", ((m.group(3) or "") == "$") if m.group(4) else (m.group(1) == "$"))
+    best = min(p_[0] for p_ in pairs)
+    pairs = [p_ for p_ in pairs if p_[0] == best]
+    if len(pairs) > 1:
+        axes = {p_[2] for p_ in pairs}
+        tabs_ = {p_[1] for p_ in pairs}
+        return ("label-ambiguous", a, b, "cross-axis" if len(axes) > 1 and len(tabs_) == 1 else "same-axis" if len(tabs_) == 1 else "several-tables")
+    _, tid, ax, ia, ib = pairs[0]
     if ax == 0:
-        return ("ok", [tid], (ha[2], hb[2]), None, (fl[0], fl[1], False, False), True, quals)
-    return ("ok", [tid], None, (ha[2], hb[2]), (False, False, fl[0], fl[1]), True, quals)
+        return ("ok", [tid], (ia, ib), None, (a_abs, b_abs, False, False), True, quals)
+    return ("ok", [tid], None, (ia, ib), (False, False, a_abs, b_abs), True, quals)
